@@ -79,8 +79,12 @@ Disagree(obs, den, i) ==
 AlwaysUnknown(den) == \A i \in 1..NEnv : IsU(Eval(den, EnvOf(i), {}))
 
 (* verdict bookkeeping: first failure per property; deviations seen *)
+Top(t) == IF t.k \in {"op", "uop"} THEN t.s ELSE t.k          \* outermost constructor, to key findings
 Fail(v, prop, clause, h, i) ==
-  IF v[prop] = "ok" THEN [v EXCEPT ![prop] = ToJson([line |-> l, clause |-> clause, h |-> h, env |-> i])] ELSE v
+  IF v[prop] = "ok"
+  THEN [v EXCEPT ![prop] = ToJson([line |-> l, clause |-> clause, h |-> h, env |-> i,
+                                   top |-> IF h \in 1..Len(pool) THEN Top(pool[h]) ELSE "new"])]
+  ELSE v
 MeaningFail(v, prop, clause, obs, den, h, i) ==
   LET got == Eval(obs, EnvOf(i), {}) d == Explains(den, EnvOf(i), got, Devs) IN
   IF d # "" THEN [v EXCEPT !.devs = @ \cup {d}] ELSE Fail(v, prop, clause, h, i)
